@@ -126,6 +126,17 @@ class BaseCtx:
                 self.count("path_ended_by_exception_in_code_under_test(owned_by_C01):%s:%s" % (label, type(ex).__name__))
             raise PathEnd()
 
+    def soft_call(self, fn, *a, **kw):
+        """call code under test; returns (True, value) or (False, exception) without ending the path"""
+        try:
+            return True, fn(*a, **kw)
+        except HarnessError:
+            raise
+        except ReplayMismatch:
+            raise
+        except Exception as ex:  # noqa
+            return False, ex
+
     def is_finite_number(self, x):
         if isinstance(x, Sym):
             return True
